@@ -85,7 +85,7 @@ def run(tier, v):
     mcs = []
     for name, cfg in (("mc", "MC_Routing_thorough.cfg" if thorough else "MC_Routing.cfg"),
                       ("mc_opts", "MC_Routing_opts_thorough.cfg" if thorough else "MC_Routing_opts.cfg")):
-        mc = vlib.tlc(PID, name, "MC_Routing", cfg, workers=8, timeout=1500 if thorough else 240)
+        mc = vlib.tlc(PID, name, "MC_Routing", cfg, workers=8, timeout=1500 if thorough else 240, heap="6g")
         vlib.tlc_must_pass(mc, cfg)
         log("  %s: %d states generated, %d distinct, depth %d, %.1fs" % (cfg, mc.generated, mc.distinct, mc.depth, mc.wall))
         if mc.distinct < 1000:
@@ -125,9 +125,14 @@ def run(tier, v):
     nls = len(json.loads(lib)["ls"])
     trees = sum(r["cases"] for r in results)
     sample = None
-    if results[1]["samples"]:
-        s = results[1]["samples"][-1]
-        sample = {"tree": s["tree"], "exp": s["exp"]}
+    with open(sim) as f:                       # an actual case: the first random tree with a multi-route result
+        for line in f:
+            s = json.loads(line)
+            if any(len(r) > 1 for r in s["exp"].values()) and len(line) < 6000:
+                sample = {"tree": s["tree"], "expected_routes": s["exp"],
+                          "expected_receivers": {l: [n["o"]["rcv"] for p in r for n in s["nodes"] if n["p"] == p]
+                                                 for l, r in s["exp"].items()}}
+                break
     coverage = {
         "states": sum(m.distinct for m in mcs), "transitions": sum(m.generated for m in mcs),
         "traces_validated_against_impl": trees,
@@ -149,6 +154,9 @@ def run(tier, v):
                   "12 matcher lists, every option; 5 label sets; 2 YAML renderings (matchers / legacy match+match_re, shared / one receiver per route)"
                   % ("4" if thorough else "3", mcs[0].distinct, mcs[1].distinct, "3 matcher lists" if thorough else "2 matcher lists", n1, n2),
     }
+    if thorough and not v.violations:          # several hundred MB of replay input
+        for p in (exh, sim):
+            os.remove(p)
     assumptions = [
         "regular expressions are those of Labels.tla with their languages stated over the value universe {'', x, y, xy} (cross-checked against Go regexp by C16)",
         "label sets are Labels!LSets (5 sets over a, b, c; absent labels read as empty)",
